@@ -35,7 +35,8 @@ CONSTANTS
                     \* a deliberately wrong variant (sensitivity runs)
     Emit
 
-Now == 2
+Start == 2        \* the clock when the process started
+MaxNow == 4
 Markers == {"plain", "ca", "revoked"}
 Matches == {"name", "port", "both", "none"}
 (* where a line lives: "arg" = the known_hosts= argument (file content,   *)
@@ -52,11 +53,13 @@ Vias == IF Focus = "shape" THEN {"name", "addrtext", "cidr", "negcidr"}
 Line == [marker : Markers, match : Matches, key : LineKeys, src : Srcs,
          via : Vias]
 
-(* validity windows [va, vb) around Now *)
+(* validity windows [va, vb), absolute, laid around the clock at start;   *)
+(* the clock `now` is a variable which Tick advances between attempts      *)
 Windows == {"in", "startsNow", "endsNext", "notYet", "endsNow", "expired"}
-Va(w) == CASE w = "startsNow" -> Now [] w = "notYet" -> Now + 1 [] OTHER -> 0
-Vb(w) == CASE w = "endsNext" -> Now + 1 [] w = "endsNow" -> Now
-           [] w = "expired" -> Now - 1 [] OTHER -> 9
+Va(w) == CASE w = "startsNow" -> Start [] w = "notYet" -> Start + 1
+           [] OTHER -> 0
+Vb(w) == CASE w = "endsNext" -> Start + 1 [] w = "endsNow" -> Start
+           [] w = "expired" -> Start - 1 [] OTHER -> 9
 
 PresKey == [kind : {"key"}, key : {"K1"}, ca : {"none"}, type : {"host"},
             win : {"in"}, princ : {"covers"}, certSig : {TRUE},
@@ -123,10 +126,11 @@ VARIABLES
     globalSet,  \* GlobalKnownHostsFile: "na" | "unset" | "one" | "two"
     shape,      \* "na" | "direct" (TCP, peer address known) | "tunnel"
                 \* (through another SSH connection / a proxy: no address)
-    hostform    \* host as dialled: "na" | "name" | "ip4" | "ip6" literal
+    hostform,   \* host as dialled: "na" | "name" | "ip4" | "ip6" literal
+    now         \* the clock at the time of the connection attempt
 
 vars == <<lines, port, mode, cbKey, cbCA, pres, phase, credsSent, userSet,
-          globalSet, shape, hostform>>
+          globalSet, shape, hostform, now>>
 
 FileExists(src, u, g) ==
     CASE src = "ucfg1" -> u \in {"one", "two"} [] src = "ucfg2" -> u = "two"
@@ -134,7 +138,7 @@ FileExists(src, u, g) ==
       [] OTHER -> TRUE
 
 Init ==
-    /\ phase = "connect" /\ credsSent = FALSE
+    /\ phase = "connect" /\ credsSent = FALSE /\ now = Start
     /\ IF Focus = "sources"
        THEN /\ userSet \in {"unset", "none", "one", "two"}
             /\ globalSet \in {"unset", "one", "two"}
@@ -179,6 +183,12 @@ Init ==
                             : n \in 0..MaxLines}
           /\ port = "def" /\ mode = "file" /\ cbKey = FALSE /\ cbCA = FALSE
           /\ pres \in {p \in PresKey \cup PresCertGood : p.holds}
+       \/ /\ Focus = "time"
+          \* one certificate, looked at while the clock advances
+          /\ lines = <<L("ca", "name", "CA1")>> /\ port \in {"def", "nondef"}
+          /\ mode = "file" /\ cbKey = FALSE /\ cbCA = FALSE
+          /\ pres \in {p \in PresCertAll : /\ p.type = "host" /\ p.certSig
+                                          /\ p.holds /\ p.princ = "covers"}
        \/ /\ Focus = "trustall"
           /\ lines \in {<<>>, <<L("revoked", "both", "K1")>>,
                         <<L("revoked", "both", "CA1")>>}
@@ -216,7 +226,9 @@ Variants == {"dropPortRevoked", "orRevoked", "revokedPrimaryOnly",
              \* against the address when one is known; an IP literal host
              \* is its own address
              "cidrNeedsPeerAddr", "cidrNever", "cidrNegationIgnored",
-             "addrAlwaysKnown"}
+             "addrAlwaysKnown",
+             \* the decision is taken against the clock at connection time
+             "clockFrozenAtStart"}
 
 (* which sources are consulted (connection.py SSHClientConnectionOptions   *)
 (* .prepare: the files of UserKnownHostsFile followed by those of          *)
@@ -297,9 +309,10 @@ Revoked(mu) ==
 
 WindowOK(mu, w) ==
     CASE mu = "windowIgnored" -> TRUE
-      [] mu = "vbInclusive" -> Va(w) <= Now /\ Now <= Vb(w)
-      [] mu = "vaLoose" -> Va(w) <= Now + 1 /\ Now < Vb(w)
-      [] OTHER -> Va(w) <= Now /\ Now < Vb(w)
+      [] mu = "vbInclusive" -> Va(w) <= now /\ now <= Vb(w)
+      [] mu = "vaLoose" -> Va(w) <= now + 1 /\ now < Vb(w)
+      [] mu = "clockFrozenAtStart" -> Va(w) <= Start /\ Start < Vb(w)
+      [] OTHER -> Va(w) <= now /\ now < Vb(w)
 
 (* the client's decision, in the order the code takes it *)
 KeyAccepted(mu) ==
@@ -347,7 +360,7 @@ TrustRule ==
        \/ /\ mode = "file" /\ pres.kind = "cert" /\ pres.certSig
           /\ (pres.ca \in cas \/ cbCA) /\ pres.ca \notin revoked
           /\ pres.type = "host"
-          /\ Va(pres.win) <= Now /\ Now < Vb(pres.win)
+          /\ Va(pres.win) <= now /\ now < Vb(pres.win)
           /\ pres.princ \in {"covers", "empty"}
 
 (* variants that would decide this case differently from the property *)
@@ -355,6 +368,7 @@ SourceVariants == {"globalOnlyFallback", "userOnlyFallback", "firstFileOnly",
                    "lastFileOnly", "globalRevokedIgnored",
                    "userRevokedIgnored", "defaultAlsoConsulted",
                    "globalNeverConsulted"}
+TimeVariants == {"clockFrozenAtStart"}
 ShapeVariants == {"cidrNeedsPeerAddr", "cidrNever", "cidrNegationIgnored",
                   "addrAlwaysKnown"}
 CallbackVariants == {"cbWaivesCertChecks", "cbWaivesType", "cbWaivesWindow",
@@ -362,26 +376,34 @@ CallbackVariants == {"cbWaivesCertChecks", "cbWaivesType", "cbWaivesWindow",
                      "cbKeyForRevoked", "cbCAForRevoked"}
 (* variants that cannot differ in a focus are not evaluated there *)
 ActiveVariants ==
-    ((Variants \ (IF Focus = "sources" THEN {} ELSE SourceVariants))
-        \ (IF Focus = "shape" THEN {} ELSE ShapeVariants))
-        \ (IF Focus \in {"callbacks", "cbcert"} THEN {} ELSE CallbackVariants)
+    Variants \ ((IF Focus = "sources" THEN {} ELSE SourceVariants)
+                \cup (IF Focus = "shape" THEN {} ELSE ShapeVariants)
+                \cup (IF Focus = "time" THEN {} ELSE TimeVariants)
+                \cup (IF Focus \in {"callbacks", "cbcert"} THEN {}
+                      ELSE CallbackVariants))
 Discriminates == {mu \in ActiveVariants : DecisionM(mu) # TrustRule}
 
 -----------------------------------------------------------------------------
+(* time passes between the start of the process and a connection attempt *)
+Tick ==
+    /\ Focus = "time" /\ phase = "connect" /\ now < MaxNow
+    /\ now' = now + 1
+    /\ UNCHANGED <<lines, port, mode, cbKey, cbCA, pres, phase, credsSent,
+                   userSet, globalSet, shape, hostform>>
 Connect ==
     /\ phase = "connect" /\ phase' = "reply"
     /\ UNCHANGED <<lines, port, mode, cbKey, cbCA, pres, credsSent, userSet,
-                   globalSet, shape, hostform>>
+                   globalSet, shape, hostform, now>>
 Decide ==
     /\ phase = "reply"
     /\ phase' = IF Decision THEN "accepted" ELSE "rejected"
     /\ UNCHANGED <<lines, port, mode, cbKey, cbCA, pres, credsSent, userSet,
-                   globalSet, shape, hostform>>
+                   globalSet, shape, hostform, now>>
 SendAuth ==
     /\ phase = "accepted" /\ phase' = "auth" /\ credsSent' = TRUE
     /\ UNCHANGED <<lines, port, mode, cbKey, cbCA, pres, userSet, globalSet,
-                   shape, hostform>>
-Next == Connect \/ Decide \/ SendAuth
+                   shape, hostform, now>>
+Next == Tick \/ Connect \/ Decide \/ SendAuth
 Spec == Init /\ [][Next]_vars
 
 DecisionMatchesRule == phase \in {"accepted", "auth"} => TrustRule
@@ -396,7 +418,7 @@ Emitted ==
                  \* the sets the lookup yields, for known_hosts given as
                  \* key lists / as a callable instead of as file content
                  TrustedKeys("none"), TrustedCAs("none"), Revoked("none"),
-                 userSet, globalSet, shape, hostform>>)
+                 userSet, globalSet, shape, hostform, now>>)
 
 NeverAccepted == phase # "accepted"
 NeverFallbackAccept == ~(phase = "accepted" /\ Fallback("none"))
